@@ -268,6 +268,13 @@ fn gen(seed: u64, idx: u64, _t: Tier) -> J {
 				4 => plant(&mut r, &mut v, &V::I(7), true),
 				_ => {}
 			}
+			if f == Fmt::Yaml && r.chance(1, 10) {
+				// Spellings of a null root that only YAML has: a bare marker, a comment, '~'.
+				let body: &[u8] = *r.pick(&[&b""[..], b"# just a comment", b"~", b"null", b"!!null ''"]);
+				dmeta.push(json!({"class": "refuse.root", "model": J::Null}));
+				docs.push(body.to_vec());
+				continue;
+			}
 			let Some(b) = render_doc(&mut r, &v, f) else { continue };
 			dmeta.push(json!({"class": classify(&v), "model": v_to_json(&v)}));
 			docs.push(b);
